@@ -154,6 +154,17 @@ def gen_ops(rng, obs, nops):
                 ops.append(["improve", [rng.randrange(64), rng.randrange(64)]])
             else:
                 ops.append(["movetrans", rng.randrange(64), rng.randrange(6)])
+    # 3-opt scenario (seeded C09l): vehicles gathered in cycle 0 of their type, then 3-opt reorderings of the cycle that holds a
+    # picked vehicle (TransitionCycle::three_opt + Transition::replace_cycle — the move of the cycle TSP — stored with
+    # set_next_day_transitions), then operations that re-price those vehicles
+    if rng.random() < 0.5:
+        ops.append(["recompute", []])
+        for _ in range(rng.choice([3, 4, 6])):
+            ops.append(["movetrans", rng.randrange(64), 0])
+        for _ in range(rng.choice([1, 2, 3])):
+            ops.append(["threeopt", rng.randrange(64), rng.randrange(50), rng.randrange(50), rng.randrange(50)])
+        if rng.random() < 0.5:
+            ops.append(["improve", [rng.randrange(64), rng.randrange(64)]])
     return ops
 
 
@@ -188,7 +199,7 @@ def opx_tokens(line):
         return "OPX %s improve %d %s" % (lab, len(vs), " ".join(vs))
     if kind in ("greedy_end", "consistent_end"):
         return "OPX %s enddepots" % lab
-    if kind in ("recompute", "movetrans"):
+    if kind in ("recompute", "movetrans", "threeopt"):
         return "OPX %s recompute" % lab   # transition-only operations: no activity, formation or depot changes
     return None
 
@@ -223,6 +234,8 @@ def enc_ops(ops):
             out += [k, str(len(o[1]))] + [str(x) for x in o[1]]
         elif k == "movetrans":
             out += [k, str(o[1]), str(o[2])]
+        elif k == "threeopt":
+            out += [k] + [str(x) for x in o[1:5]]
         else:
             out += [k]
     return " ".join(out)
